@@ -9,13 +9,13 @@ CONSTANTS
   MCWidths <- W1
   MCGaps <- Gaps2
   MCFormats <- FmtNormal
-  MCMax <- Max4
+  MCMax <- Max2
   Ticks <- TicksQ
   StartArgs <- StartQ
   AdvArgs <- AdvQ
   SetArgs <- SetQ
   Msgs <- NoMsgs
-  Depth = 5
+  Depth = 6
 VIEW HView
 PROPERTY PFrameShape
 PROPERTY PBarWidth
